@@ -4,6 +4,7 @@
    under a method that is not enabled.  Used by Props/C03.v, Props/C11.v and Props/C19.v. *)
 From Verif Require Import Base Scope Types Prog Pop Token Authorize System Config Discovery Required Run Monitors
   Hoare Tactics OneShot HistProps ConfigProofs C02Proofs C02Handlers C19Proofs SessInv.
+From Verif Require Import ParStored.
 From Verif.Corr Require Import C11 C11Eff.
 Local Open Scope N_scope.
 
@@ -201,7 +202,7 @@ Section Handlers.
   Qed.
   Lemma push_auth_rgm n now r : rgm (push_auth w n now r).
   Proof.
-    unfold push_auth, save_a. destruct (negb _); [exact I|].
+    unfold push_auth, save_a. destruct (par_stored_eq (pr_params r)) as [sd SE]; rewrite SE; clear SE. destruct (negb _); [exact I|].
     apply rgP_bind; [apply quiet_rgm, authenticated_quiet|]. intros [c|]; [|exact I].
     destruct (negb (is_nil (p_request_uri (pr_params r)))); [exact I|].
     assert (K : match (if is_fapi (cf_profile (w_cfg w)) then validate_params (w_cfg w) (pr_params r) (client_for_par (w_cfg w) c (p_redirect (pr_params r)))
